@@ -47,7 +47,7 @@ Lemma C13_static_proof c : pf_dom c ->
   pf_mode c = MEmpty \/ pf_mode c = MSerial \/ pf_mode c = MStatic ->
   exists l, static_calls c = Some l /\ gran_okb (c13_gran c) (pf_e c) l = true.
 Proof.
-  intros D M. pose proof D as ((Hkn & Hs & He & Hub & HN & HmT & Hmi & Hgr & Hfit & Hch) & Hovf).
+  intros D M. pose proof D as (Hkn & Hs & He & Hub & HN & HmT & Hmi & Hgr & Hfit & Hch).
   destruct (dom_kind c D) as [Hwf Hw64].
   unfold pf_mode in M. unfold static_calls, c13_gran.
   destruct (decide_inv c D) as [[E0 Pth]|[[E0 Pth]|[F Pth]]].
@@ -89,7 +89,7 @@ Lemma C13_dynamic_proof c l3 sched : pf_dom c -> pf_mode c = MDynamic ->
   exists dc, pf_dyncfg c l3 = Some dc /\
     (dyn_complete dc sched = true -> gran_okb (c13_gran c) (pf_e c) (dyn_calls dc sched) = true).
 Proof.
-  intros D M. pose proof D as ((Hkn & Hs & He & Hub & HN & HmT & Hmi & Hgr & Hfit & Hch) & Hovf).
+  intros D M. pose proof D as (Hkn & Hs & He & Hub & HN & HmT & Hmi & Hgr & Hfit & Hch).
   destruct (dom_kind c D) as [Hwf Hw64].
   destruct (C12_dynamic_facts c l3 D M) as (F & cs & eg & E & Cs & Fit & Dv & W1 & W2).
   destruct (C12_dynamic_proof c l3 D M) as (_ & dc' & E' & Pm & _).
@@ -108,50 +108,13 @@ Proof.
   apply Z.divide_sub_r; unfold doff; cbn [dc dc_cs dc_e dc_s]; apply min_mult; try exact Fdiv; apply Z.divide_mul_r; exact Dv.
 Qed.
 
-(* ---------------------------------------------------------------- adaptive, start a multiple of g *)
-Lemma align_exact k v g : wf_kind k -> in_kind k v -> 2 <= g <= kmax k -> kmin k <= g * (v / g) ->
-  align_down k v g = g * (v / g).
-Proof.
-  intros Hwf Hv Hg Hlow. unfold align_down.
-  replace (g <=? 1) with false by (symmetry; apply Z.leb_gt; lia).
-  assert (K0 : kmin k <= 0) by (unfold kmin; destruct (ik_signed k); [pose proof (pow2_pos (ik_w k - 1) ltac:(unfold wf_kind in Hwf; lia)); lia | lia]).
-  assert (CG : castk k g = g) by (apply castk_id; [assumption | unfold in_kind; lia]). rewrite CG.
-  pose proof (Z.quot_rem' v g) as QR. pose proof (Z.rem_bound_pos v g) as RP. pose proof (Z.rem_bound_pos_neg v g) as RN.
-  set (q := Z.quot v g) in *. set (r := Z.rem v g) in *.
-  assert (Qk : in_kind k q).
-  { unfold in_kind in *. destruct (Z.le_gt_cases 0 v) as [P|P].
-    - specialize (RP P ltac:(lia)). assert (0 <= q) by nia. assert (q <= v) by nia. lia.
-    - specialize (RN ltac:(lia) ltac:(lia)). assert (q <= 0) by nia. assert (v <= q) by nia. lia. }
-  rewrite (castk_id k q) by assumption.
-  pose proof (Z.div_mod v g ltac:(lia)) as DM. pose proof (Z.mod_pos_bound v g ltac:(lia)) as MB.
-  assert (Vle : g * (v / g) <= v) by lia.
-  assert (FIN : forall d, d = v / g -> castk k (d * g) = g * (v / g)).
-  { intros d ->. rewrite Z.mul_comm. apply castk_id; [assumption | unfold in_kind in *; lia]. }
-  destruct (ik_signed k && negb (q * g =? v) && (v <? 0)) eqn:C.
-  - apply andb_true_iff in C. destruct C as [C C3]. apply andb_true_iff in C. destruct C as [_ C2].
-    apply negb_true_iff, Z.eqb_neq in C2. apply Z.ltb_lt in C3.
-    specialize (RN ltac:(lia) ltac:(lia)).
-    assert (Dq : v / g = q - 1).
-    { symmetry. apply (Z.div_unique v g (q - 1) (r + g)); [left; lia | lia]. }
-    assert (Q1 : in_kind k (q - 1)).
-    { unfold in_kind in *. rewrite <- Dq. split; [|lia]. nia. }
-    rewrite (castk_id k (q - 1)) by assumption. apply FIN. lia.
-  - apply FIN. apply andb_false_iff in C. destruct C as [C|C].
-    + apply andb_false_iff in C. destruct C as [C|C].
-      * (* unsigned: v >= 0 *)
-        assert (0 <= v) by (unfold in_kind, kmin in Hv; rewrite C in Hv; lia).
-        subst q. apply quot_div_nonneg; lia.
-      * apply negb_false_iff, Z.eqb_eq in C. apply (Z.div_unique v g q 0); [left; lia | lia].
-    + apply Z.ltb_ge in C. subst q. apply quot_div_nonneg; lia.
-Qed.
-
-(* with start a multiple of g every stripe boundary is a multiple of g *)
+(* ---------------------------------------------------------------- adaptive *)
+(* every stripe boundary is start + a multiple of g (initStripeState aligns the offset from start) *)
 Lemma stripe_end_mult k s e P g i cursor : wf_kind k -> ik_w k <= 64 -> in_kind k s -> in_kind k e -> s < e ->
-  2 <= g <= kmax k -> (g | s) -> (g | e) -> (g | cursor) -> 0 <= i -> i + 1 <= P -> P < 2 ^ 32 ->
-  e - s < 2 ^ 63 ->
-  (g | stripe_end k s e P g i cursor).
+  1 <= g -> (g | e - s) -> (g | cursor - s) -> 0 <= i -> i + 1 <= P -> P < 2 ^ 32 -> e - s < 2 ^ 63 ->
+  (g | stripe_end k s e P g i cursor - s).
 Proof.
-  intros Hwf Hw64 Hs He Hse Hg Ds De Dc Hi HiP HP Hfit. unfold stripe_end.
+  intros Hwf Hw64 Hs He Hse Hg De Dc Hi HiP HP Hfit. unfold stripe_end.
   destruct (i + 1 =? P); [exact De|].
   pose proof (kmax_lt_p64 k Hwf Hw64) as (K1 & K2 & K3 & K4).
   assert (U : ik_signed k = false -> 0 <= s) by (intros U; unfold in_kind, kmin in Hs; rewrite U in Hs; lia).
@@ -161,114 +124,82 @@ Proof.
   rewrite quot_div_nonneg by lia.
   assert (PER : 0 <= (i + 1) * ((e - s) / P) <= e - s).
   { assert (0 <= (e - s) / P) by (apply Z.div_pos; lia).
-    pose proof (Z.mul_div_le (e - s) P ltac:(lia)). split; [nia|]. 
+    pose proof (Z.mul_div_le (e - s) P ltac:(lia)). split; [nia|].
     assert ((i + 1) * ((e - s) / P) <= P * ((e - s) / P)) by (apply Z.mul_le_mono_nonneg_r; lia). lia. }
   rewrite (W_in k ((i + 1) * ((e - s) / P))) by (intros; pose proof p63_lt_p64; lia).
-  rewrite (W_in k (s + (i + 1) * ((e - s) / P))) by (intros Sg; specialize (U Sg); lia).
-  set (v := s + (i + 1) * ((e - s) / P)) in *.
-  assert (Vk : in_kind k v) by (unfold in_kind in *; lia).
-  rewrite (castk_id k v) by assumption.
+  set (off := (i + 1) * ((e - s) / P)) in *.
   replace (Z.max 1 g) with g by lia.
-  assert (LOW : kmin k <= g * (v / g)).
-  { destruct Ds as [m Hm]. assert (m <= v / g) by (apply Z.div_le_lower_bound; nia). unfold in_kind in Hs. nia. }
-  rewrite (align_exact k v g Hwf Vk Hg LOW).
-  set (se := g * (v / g)).
-  assert (Dse : (g | se)) by (exists (v / g); subst se; lia).
+  rewrite rem_mod_nonneg by lia.
+  pose proof (Z.mod_pos_bound off g ltac:(lia)) as MB. pose proof (Z.div_mod off g ltac:(lia)) as DM.
+  assert (MLE : off mod g <= off) by (apply Z.mod_le; lia).
+  rewrite (W_in k (off - off mod g)) by (intros; pose proof p63_lt_p64; lia).
+  rewrite (W_in k (s + (off - off mod g))) by (intros Sg; specialize (U Sg); lia).
+  rewrite castk_id by (try assumption; unfold in_kind in *; lia).
+  set (se := s + (off - off mod g)).
+  assert (Dse : (g | se - s)) by (exists (off / g); subst se; lia).
   destruct (se <=? cursor); [destruct (e <=? cursor) | destruct (e <=? se)]; assumption.
 Qed.
 
 Lemma stripe_bounds_mult k s e P g : wf_kind k -> ik_w k <= 64 -> in_kind k s -> in_kind k e -> s < e ->
-  2 <= g <= kmax k -> (g | s) -> (g | e) -> P < 2 ^ 32 -> e - s < 2 ^ 63 ->
-  forall n i cursor, (g | cursor) -> 0 <= i -> i + Z.of_nat n <= P ->
-  forall b e0, In (b, e0) (stripe_bounds_from k s e P g n i cursor) -> (g | b) /\ (g | e0).
+  1 <= g -> (g | e - s) -> P < 2 ^ 32 -> e - s < 2 ^ 63 ->
+  forall n i cursor, (g | cursor - s) -> 0 <= i -> i + Z.of_nat n <= P ->
+  forall b e0, In (b, e0) (stripe_bounds_from k s e P g n i cursor) -> (g | b - s) /\ (g | e0 - s).
 Proof.
-  intros Hwf Hw64 Hs He Hse Hg Ds De HP Hfit. induction n as [|n IH]; intros i cursor Dc Hi HiP b e0 Hin; [destruct Hin|].
+  intros Hwf Hw64 Hs He Hse Hg De HP Hfit. induction n as [|n IH]; intros i cursor Dc Hi HiP b e0 Hin; [destruct Hin|].
   cbn [stripe_bounds_from] in Hin.
-  pose proof (stripe_end_mult k s e P g i cursor Hwf Hw64 Hs He Hse Hg Ds De Dc Hi ltac:(lia) HP Hfit) as Dse.
+  pose proof (stripe_end_mult k s e P g i cursor Hwf Hw64 Hs He Hse Hg De Dc Hi ltac:(lia) HP Hfit) as Dse.
   destruct Hin as [Hin|Hin].
   - inversion Hin; subst. split; assumption.
   - apply (IH (i + 1) (stripe_end k s e P g i cursor) Dse ltac:(lia) ltac:(lia) b e0 Hin).
 Qed.
 
-Lemma C13_adaptive_proof c sched : pf_dom c -> pf_mode c = MAdaptive -> c12_narrow_domain c = false ->
-  c13_misaligned_domain c = false ->
+Lemma C13_adaptive_proof c sched : pf_dom c -> pf_mode c = MAdaptive -> 
   exists sc, pf_scfg c = Some sc /\
     (stripe_complete sc sched = true -> stripe_nowrap sc sched = true ->
      gran_okb (c13_gran c) (pf_e c) (stripe_calls sc sched) = true).
 Proof.
-  intros D M Nar Mis. pose proof D as ((Hkn & Hs & He & Hub & HN & HmT & Hmi & Hgr & Hfit & Hch) & Hovf).
+  intros D M. pose proof D as (Hkn & Hs & He & Hub & HN & HmT & Hmi & Hgr & Hfit & Hch).
   destruct (dom_kind c D) as [Hwf Hw64].
-  destruct (C12_adaptive_facts c D M Nar) as (F & Wt & C0 & cs & SCE & Cs & Dv & NarE & NL).
-  destruct (C12_adaptive_proof c D M Nar) as (_ & sc' & E' & Pm & _).
+  destruct (C12_adaptive_facts c D M) as (F & Wt & C0 & cs & SCE & Cs & Dv & NL).
+  destruct (C12_adaptive_proof c D M) as (_ & sc' & E' & Pm & _).
   rewrite SCE in E'. inversion E'; subst sc'; clear E'.
   destruct F as [Flt Fg Fg1 Fe Fdiv Ftt Ftf Frem FN Fmt Fmi Fadj].
   eexists. split; [exact SCE|]. intros Hc Hn. rewrite (gran_okb_perm _ _ _ _ (Pm sched Hc Hn)).
   unfold stripe_canon, c13_gran. cbn [sc_tail]. set (sc := SC _ _ _ _ _ _ _).
   set (g := d_g (pf_decide c)) in *. set (e' := d_trimmedEnd (pf_decide c)) in *.
   apply (gran_ok_app _ _ _ _ e'); [|apply pf_tail_cases].
-  assert (ST : sc_step sc = cs) by (unfold sc_step; cbn [sc sc_k sc_cs]; exact NarE).
+  assert (ST : sc_step sc = cs) by reflexivity.
   rewrite ST.
   intros ab Hin. apply in_flat_map in Hin. destruct Hin as ([b e0] & Hb & Hin).
   unfold stripe_chunks in Hin. apply in_map_iff in Hin. destruct Hin as (i & <- & _). cbn [fst snd].
-  destruct (Z.le_gt_cases g 1) as [G1|G1].
-  { replace g with 1 by lia. apply rem_1. }
   apply rem_of_divide; [lia|].
-  (* start is a multiple of g *)
-  unfold c13_misaligned_domain in Mis. rewrite M in Mis. unfold c13_gran in Mis. fold g in Mis.
-  replace (1 <? g) with true in Mis by (symmetry; apply Z.ltb_lt; lia). cbn [andb] in Mis.
-  apply negb_false_iff, Z.eqb_eq in Mis. apply Z.mod_divide in Mis; [|lia].
-  assert (De : (g | e')) by (replace e' with ((e' - pf_s c) + pf_s c) by lia; apply Z.divide_add_r; assumption).
   assert (InE : in_kind (kind_of (pf_kn c)) e') by (apply (in_kind_mid _ (pf_s c) _ (pf_e c)); [assumption|assumption|lia]).
-  assert (Gk : g <= kmax (kind_of (pf_kn c))).
-  { pose proof (castk_in (kind_of (pf_kn c)) cs Hwf) as CI. rewrite NarE in CI. unfold in_kind in CI.
-    destruct Dv as [m Hm]. assert (1 <= m) by nia. nia. }
   assert (P31 : 2 ^ 31 < 2 ^ 32) by (apply Z.pow_lt_mono_r; lia).
   destruct (stripe_bounds_mult (kind_of (pf_kn c)) (pf_s c) e' (Z.of_nat (Z.to_nat (pf_numToLaunch c + 1))) g
-              Hwf Hw64 Hs InE ltac:(lia) ltac:(lia) Mis De ltac:(lia) ltac:(lia)
-              (Z.to_nat (pf_numToLaunch c + 1)) 0 (pf_s c) Mis ltac:(lia) ltac:(lia) b e0 Hb) as [Db De0].
+              Hwf Hw64 Hs InE ltac:(lia) Fg1 Fdiv ltac:(lia) ltac:(lia)
+              (Z.to_nat (pf_numToLaunch c + 1)) 0 (pf_s c) ltac:(exists 0; lia) ltac:(lia) ltac:(lia) b e0 Hb) as [Db De0].
   replace (Z.min (b + (Z.of_nat i + 1) * cs) e0 - (b + Z.of_nat i * cs))
-    with (Z.min (b + (Z.of_nat i + 1) * cs) e0 - b - Z.of_nat i * cs) by lia.
+    with (Z.min ((b - pf_s c) + (Z.of_nat i + 1) * cs) (e0 - pf_s c) - (b - pf_s c) - Z.of_nat i * cs) by lia.
   apply Z.divide_sub_r; [apply Z.divide_sub_r; [apply min_mult; [apply Z.divide_add_r; [exact Db | apply Z.divide_mul_r; exact Dv] | exact De0] | exact Db]
                         | apply Z.divide_mul_r; exact Dv].
 Qed.
 
-(* ---------------------------------------------------------------- all modes, refutation *)
-Lemma C13_holds_except_proof c x : pf_dom c -> pf_complete c x = true ->
-  c12_narrow_domain c = false -> c12_nowrap c x = true -> c13_misaligned_domain c = false ->
+(* ---------------------------------------------------------------- all modes *)
+Lemma C13_holds_proof c x : pf_dom c -> pf_complete c x = true ->
+  c12_nowrap c x = true ->
   exists l, pf_calls c x = Some l /\ gran_okb (c13_gran c) (pf_e c) l = true.
 Proof.
-  intros D Hc Nar Nw Mis. unfold pf_calls, pf_complete, c12_nowrap in *.
+  intros D Hc Nw. unfold pf_calls, pf_complete, c12_nowrap in *.
   destruct (pf_mode c) eqn:M.
   - apply (C13_static_proof c D). unfold pf_mode in *. left. exact M.
   - apply (C13_static_proof c D). right; left. exact M.
   - apply (C13_static_proof c D). right; right. exact M.
-  - destruct (C13_adaptive_proof c (ex_stripe x) D M Nar Mis) as (sc & E & A). rewrite E in *.
+  - destruct (C13_adaptive_proof c (ex_stripe x) D M) as (sc & E & A). rewrite E in *.
     eexists. split; [reflexivity | apply A; assumption].
   - destruct (C13_dynamic_proof c (ex_l3 x) (ex_dyn x) D M) as (dc & E & A). rewrite E in *.
     eexists. split; [reflexivity | apply A; assumption].
 Qed.
 
-(* the witness: int32 range [3, 1003), granularity 8, adaptive, 4-thread pool (5 workers).  Every worker drains its own
-   stripe (no steals); the execution is complete and no cursor wraps; stripe 0 = [3, 200) ends with [195, 200) *)
+(* the former witness of the finding adaptive-absolute-alignment (int32 [3,1003), g = 8, adaptive, 5 workers) *)
 Definition c13_witness : pfcfg := PF 4 3 1003 0 4 2147483647 1 8 true.
 Definition c13_witness_exec : exec := EX 0 [] (own_then_poll 5 40).
-
-Lemma C13_refuted_proof :
-  pf_dom c13_witness /\ pf_complete c13_witness c13_witness_exec = true /\
-  c12_narrow_domain c13_witness = false /\ c12_nowrap c13_witness c13_witness_exec = true /\
-  c13_misaligned_domain c13_witness = true /\
-  exists l, pf_calls c13_witness c13_witness_exec = Some l /\ In (195, 200) l /\ In (1000, 1003) l /\
-            gran_okb (c13_gran c13_witness) (pf_e c13_witness) l = false.
-Proof.
-  split.
-  { split; [|vm_compute; reflexivity]. unfold pf_dom_wide.
-    cbn [c13_witness pf_kn pf_s pf_e pf_chunk pf_N pf_maxThreads pf_minItems pf_gran].
-    split; [lia|]. unfold kind_of, in_kind; cbn [nth all_kinds I32 kmin kmax ik_signed ik_w].
-    repeat split; try lia; try (intros; vm_compute; discriminate). }
-  split; [vm_compute; reflexivity|]. split; [vm_compute; reflexivity|]. split; [vm_compute; reflexivity|].
-  split; [vm_compute; reflexivity|].
-  destruct (pf_calls c13_witness c13_witness_exec) as [l|] eqn:E; [|vm_compute in E; discriminate].
-  exists l. split; [reflexivity|]. vm_compute in E. inversion E; subst l; clear E.
-  split; [apply In_of_existsb; vm_compute; reflexivity|]. split; [apply In_of_existsb; vm_compute; reflexivity|].
-  vm_compute. reflexivity.
-Qed.
